@@ -19,7 +19,9 @@ type ComparableOrdered[T Ordered] struct {
 
 // CompareTo Compare with an another object
 func (obj ComparableOrdered[T]) CompareTo(input interface{}) int {
-	return CompareToOrdered(obj.Val, input.(ComparableOrdered[T]).Val)
+	// negative when obj is less than input, like ComparableString (strings.Compare);
+	// CompareToOrdered(a, b) itself answers 1 when a < b.
+	return CompareToOrdered(input.(ComparableOrdered[T]).Val, obj.Val)
 }
 
 // NewComparableString Generate a String Comparable for Comparator
